@@ -16,6 +16,8 @@ import (
 
 func init() { Registry["C15"] = C15 }
 
+var reNilCall = regexp.MustCompile(`attempt to call a nil value \('([A-Za-z_0-9]+)'\)`)
+
 var reNonAlnum = regexp.MustCompile(`[^a-z0-9]`)
 
 func normAbbr(s string) string { return reNonAlnum.ReplaceAllString(strings.ToLower(s), "") }
@@ -109,7 +111,16 @@ func C15(ctx *core.Ctx) int {
 				} else {
 					where = "before: " + where
 				}
-				ctx.Report(fmt.Sprintf("the dissector aborts|%s|%s", luaErrClass(err), where),
+				cls := luaErrClass(err)
+				if m := reNilCall.FindStringSubmatch(err.Error()); m != nil {
+					// a function that is declared further down the script (Lua's local-function scoping) vs one that exists nowhere
+					if strings.Contains(script, "function "+m[1]+"(") {
+						cls += " [the function is declared later in the script]"
+					} else {
+						cls += " [no function of that name is defined anywhere in the script]"
+					}
+				}
+				ctx.Report(fmt.Sprintf("the dissector aborts|%s|%s", cls, where),
 					fmt.Sprintf("program %s message %s bytes %s: %v\n%s", pc.Prog.Name, msg.ID, core.Trunc(hexOf(enc.Bytes), 200), err, core.Trunc(pc.Text, 600)), mrep)
 				continue
 			}
